@@ -85,11 +85,16 @@ def h_tangent(h):
     rad = deg * math.pi / 180
     spec = [0.5 * math.pi + 2 * rad - j * rad for j in range(M)]        # one full turn, documented start
     # the directions projected on: the first M of them are the documented grid (mod 2 pi), later ones repeat it
-    h.check(len(used) >= M, "projects-on-every-direction", f"{len(used)} directions for {M} steps")
-    for j in range(min(len(used), M + 2)):
+    def on_grid(j):
         d = (used[j] - spec[j % M]) / (2 * math.pi)
-        h.check(abs(d - round(d)) < 1e-9, "direction-grid-advances-by-exactly-the-step", f"direction {j}: {used[j]}")
-    thetas = list(used[:M]) if len(used) >= M else spec
+        return abs(d - round(d)) < 1e-9
+
+    if len(used) >= M and all(on_grid(j) for j in range(M)):
+        thetas = list(used[:M])       # same doubles as the implementation: both sides are the same terms (fast)
+    else:
+        # the implementation does not project on the documented grid one direction at a time (it may still be right,
+        # e.g. by using a symmetry): judge the edges against the documented directions only
+        thetas = spec
     xs = h.arr([r[0] for r in rows])
     ys = h.arr([r[1] for r in rows])
     offs = []
